@@ -410,7 +410,14 @@ fn area_sinks(cx: &mut Cx, r: &mut Rng) {
                     cx.call("sinks", "UnixMetricSink::emit", tr, || { let _ = sink.emit(m); });
                 }
                 cx.call("sinks", "UnixMetricSink::stats", tr, || { let _ = sink.stats(); let _ = sink.flush(); });
-            } else if let Some(sink) = cx.call("sinks", "BufferedUnixMetricSink::with_capacity", tr, || BufferedUnixMetricSink::with_capacity(&path, sock, cap)) {
+            } else if let Some(sink) = {
+                // one case in five: the process cannot get another file descriptor while the sink is built and used (soft
+                // RLIMIT_NOFILE 0; the descriptors it already has keep working) - constructors that cannot fail must not
+                // need one
+                let starved = r.chance(1, 5);
+                let _limit = if starved { cx.rep.obs("sinks_built_and_used_while_no_file_descriptor_can_be_had", 1); FdLimit::zero() } else { None };
+                cx.call("sinks", "BufferedUnixMetricSink::with_capacity", tr, || BufferedUnixMetricSink::with_capacity(&path, sock, cap))
+            } {
                 for (i, m) in metrics.iter().enumerate() {
                     cx.call("sinks", "BufferedUnixMetricSink::emit", tr, || { let _ = sink.emit(m); });
                     if i % 4 == 0 {
@@ -635,6 +642,38 @@ fn area_tls(cx: &mut Cx, r: &mut Rng) {
         }
     });
     cx.rep.obs("threads_whose_thread_local_destructor_used_the_library_at_exit", 1);
+}
+
+/// Soft RLIMIT_NOFILE set to 0 for the lifetime of the guard (restored on drop).
+struct FdLimit([u64; 2]);
+
+extern "C" {
+    fn getrlimit(resource: i32, rlim: *mut [u64; 2]) -> i32;
+    fn setrlimit(resource: i32, rlim: *const [u64; 2]) -> i32;
+}
+
+impl FdLimit {
+    fn zero() -> Option<FdLimit> {
+        let mut old = [0u64; 2];
+        unsafe {
+            if getrlimit(7, &mut old) != 0 {
+                return None;
+            }
+            let new = [0u64, old[1]];
+            if setrlimit(7, &new) != 0 {
+                return None;
+            }
+        }
+        Some(FdLimit(old))
+    }
+}
+
+impl Drop for FdLimit {
+    fn drop(&mut self) {
+        unsafe {
+            setrlimit(7, &self.0);
+        }
+    }
 }
 
 fn area_misc(cx: &mut Cx, r: &mut Rng) {
